@@ -81,9 +81,11 @@ Definition castling_rights_lost_legacy (m : move) : N :=
   else if (f =? H8) || (t =? H8) then BlackKingSideCastle
   else NoCastlingRights.
 
-(** updateNoProgress (repaired: only pawn moves and captures reset the clock; castling does not) *)
+(** updateNoProgress (repaired: only pawn moves and captures reset the clock; castling does not; the
+    clock saturates at math.MaxInt instead of wrapping to a negative number) *)
+Definition max_int : N := 9223372036854775807.
 Definition update_noprogress (old : N) (m : move) : N :=
-  if (mtype m =? Normal) || is_castle m then old + 1 else 0.
+  if (mtype m =? Normal) || is_castle m then (if old =? max_int then old else old + 1) else 0.
 Definition update_noprogress_legacy (old : N) (m : move) : N :=
   if negb (mtype m =? Normal) then 0 else old + 1.
 
